@@ -320,7 +320,10 @@ def build_fn(unit, file_spec, item_spec, opts, sections, log, probes=False):
             continue
         n = int(m.group(1))
         if n < 1 or n > len(loops):
-            raise AssembleError("lost anchor: loop %d of %s (function has %d loops)" % (n, item_spec, len(loops)))
+            # the loop this section annotates is gone: the hint is lost (the function is then undecided unless it still
+            # verifies, or a native contract finds a failing input), the rest of the unit is still checked
+            info.lost.append("loop %d of %s not found (function has %d loops)" % (n, item_spec, len(loops)))
+            continue
         body = "\n".join(secd[key])
         # split into `invariant` / `invariant_except_break` / `ensures` / `decreases` groups
         lines = []
@@ -432,7 +435,7 @@ def build_fn(unit, file_spec, item_spec, opts, sections, log, probes=False):
             if "noisolation" in opts:
                 break       # one query for the whole body: a failing loop probe would make the exit probe vacuous
             m = re.match(r"loop\s+(\d+)$", key)
-            if m and "invariant" in "\n".join(secd[key]):
+            if m and "invariant" in "\n".join(secd[key]) and int(m.group(1)) <= len(loops):
                 probe(loops[int(m.group(1)) - 1] + 1, "loop%s.invariant" % m.group(1))
 
     for key in secd:
